@@ -203,8 +203,11 @@ def run(ck, ix, tier):
     subst = nodes_with(cfg, lambda x: isinstance(x, ast.Assign) and norm(x.targets[0]) == "cname" and "'delta_'" in norm(x.value))
     ck.check(len(subst) == 1, "G-DOM", "_parse_units_as_container|delta-substitution-present", fi.loc(), "delta substitution present", "the delta_ substitution for offset units in compound expressions is gone")
     from .. import shape
-    loopv = [l for l in walk_local(fi.node) if isinstance(l, ast.For) and any(isinstance(x, ast.Name) and x.id == "units" for x in ast.walk(l.iter))]
-    expv = {"units[name]"}
+    ph = [a_.targets[0].id for a_ in walk_local(fi.node) if isinstance(a_, ast.Assign) and isinstance(a_.targets[0], ast.Name) and isinstance(a_.value, ast.Call) and norm(a_.value.func) == "ParserHelper.from_string"]
+    PHV = ph[0] if ph else "units"          # the parsed expression (a ParserHelper), whatever it is called
+    loopv = [l for l in walk_local(fi.node) if isinstance(l, ast.For) and any(isinstance(x, ast.Name) and x.id == PHV for x in ast.walk(l.iter))]
+    lname = norm(loopv[0].target.elts[0] if loopv and isinstance(loopv[0].target, ast.Tuple) else loopv[0].target) if loopv else "name"
+    expv = {f"{PHV}[{lname}]"}
     if loopv and isinstance(loopv[0].target, ast.Tuple) and len(loopv[0].target.elts) == 2:
         expv.add(norm(loopv[0].target.elts[1]))
 
@@ -217,7 +220,7 @@ def run(ck, ix, tier):
         if isinstance(second, ast.BoolOp) and isinstance(second.op, ast.And) and len(second.values) == 2 and isinstance(second.values[0], ast.UnaryOp):
             second = second.values[1]
         sx = shape.resolve(second, fi.node, 1)
-        return first == "len(units) > 1" and isinstance(second, ast.Compare) and isinstance(second.ops[0], ast.NotEq) and norm(second.comparators[0]) == "1" and (norm(second.left) in expv or norm(sx.left) in expv)
+        return first == f"len({PHV}) > 1" and isinstance(second, ast.Compare) and isinstance(second.ops[0], ast.NotEq) and norm(second.comparators[0]) == "1" and (norm(second.left) in expv or norm(sx.left) in expv)
     is_as_delta = lambda a_: isinstance(a_, ast.Name) and a_.id == "as_delta"
     is_mult = lambda a_: isinstance(a_, ast.Attribute) and a_.attr == "is_multiplicative" and ("self._units[cname]" in norm(a_.value) or "self._units[cname]" in shape.rnorm(a_.value, fi.node, 1))
     for s in subst:
@@ -232,8 +235,9 @@ def run(ck, ix, tier):
     okn = any(isinstance(a_, ast.Assign) and norm(a_.targets[0]) == "cname" and isinstance(a_.value, ast.Call) and call_name(a_.value) == "get_name" and "case_sensitive=case_sensitive" in norm(a_.value) for a_ in walk_local(fi.node))
     ck.check(okn and len(adds) == 1, "G-PROV", "_parse_units_as_container|canonical-names-with-exponents", fi.loc(),
              "every unit is added under its canonical name with its exponent", "units are no longer accumulated under get_name(name, case_sensitive=...) with their exponent")
-    sc = [n.id for n in cfg.nodes if n.kind == "test" and norm(n.ast) == "units.scale != 1"]
-    ck.check(bool(sc) and all(edge_leads_only_to_raise(cfg, t, "t") is None for t in sc), "G-DOM", "_parse_units_as_container|scaling-factor-rejected", fi.loc(), "a numeric factor in a unit expression raises", "unit expressions with a scaling factor are no longer rejected")
+    scaled = shape.guard_edges(cfg, lambda a_: isinstance(a_, ast.Compare) and isinstance(a_.ops[0], ast.Eq) and sorted([norm(a_.left), norm(a_.comparators[0])]) == sorted([f"{PHV}.scale", "1"]), want=False)
+    sc = scaled
+    ck.check(bool(sc) and all(edge_leads_only_to_raise(cfg, t, lab) is None for (t, lab) in sc), "G-DOM", "_parse_units_as_container|scaling-factor-rejected", fi.loc(), "a numeric factor in a unit expression raises", "unit expressions with a scaling factor are no longer rejected")
     fi = ix.func(NR, "GenericNonMultiplicativeRegistry.parse_units_as_container")
     ck.analysed(fi)
     src = norm(fi.node)
